@@ -60,6 +60,9 @@ PROP = {
                 H("c12_view_reverse_atomic_n100", "B", bound=B100, what="view reversal: Err => bytes unchanged, total, position", timeout=3000),
                 H("c12_view_reverse_spec_n100", "B", bound=B100, what="view reversal: functional spec on well-formed shapes", timeout=3000),
                 H("c12_view_reverse_involution_n100", "B", bound=B100, what="view reversal is an involution", timeout=3000),
+                H("c12_agree_one_segment", "B", tier="experimental", bound="1 segment x 1..=3 hop fields, all pointer values", what="standard view/model agreement (to_model.encode, expiration, interface queries, segment index, reversal) - ran out of memory / time", timeout=3600),
+                H("c12_agree_two_segments", "B", tier="experimental", bound="2 segments x <= 2 hop fields", what="standard view/model agreement - timed out at 60 min", timeout=5400),
+                H("c12_model_reverse_total_small", "B", tier="experimental", bound="13 small shapes", what="StandardPath::try_reverse (model): atomic, total, involution - ran out of memory", timeout=3600),
                 H("c12_dp_view_reverse_atomic_n64", "B", bound="path byte strings <= 64 B", what="ScionDpPathViewExtMut wrappers: Err => bytes unchanged", timeout=3000),
                 H("c12_dp_view_reverse_other_variants", "P", what="Unsupported / Empty variants", timeout=900),
             ],
